@@ -60,8 +60,11 @@ theorem checkEntries_cons_cont (ctx : TCtx) (rec : Rec) (child : Node) (cn : Vis
           (decide (known = some idx) || hitB (depth - ctx.rootDepth) child.name e) e st) := by
   simp only [checkEntries, h, stepC, hitB, termB, guardB, hcb, cbContinue]
   have h1 : ¬ (((depth + 1 : Nat) : Int) < (depth : Int) + 1 - 1) := by omega
+  -- a non-aborting level returns its own depth: the F27 conditions `nd < childDepth` are never true here
+  have h2 : decide (((depth + 1 : Nat) : Int) < (depth : Int) + 1) = false := by
+    simp only [decide_eq_false_iff_not]; omega
   rw [hrec]
-  simp only [h1, if_false, if_true, Bool.false_eq_true, decide_eq_true_eq]
+  simp only [h1, h2, Bool.or_false, if_false, if_true, Bool.false_eq_true, decide_eq_true_eq]
   rfl
 
 /-- invariant of the loop state -/
@@ -187,13 +190,15 @@ def stepG (ctx : TCtx) (rec : Rec) (child : Node) (cnames : Visit) (depth : Nat)
       let (rc, nd) := ctx.cb cnames (depth + 1) child
       let vs := if rc then st.visits ++ [cnames] else st.visits
       if nd < childDepth - 1 then { st with visits := vs, abort := some nd }
-      else { st with visits := vs, matched := true, done := st.recursed }
+      else { st with visits := vs, matched := true, recursed := st.recursed || decide (nd < childDepth),
+                     done := st.recursed || decide (nd < childDepth) }
     else st
   else
     if st.recursed then st else
     let (vs, nd) := rec child cnames (depth + 1)
     if nd < childDepth - 1 then { st with visits := st.visits ++ vs, abort := some nd }
-    else { st with visits := st.visits ++ vs, recursed := true, done := st.matched }
+    else { st with visits := st.visits ++ vs, recursed := true, matched := st.matched || decide (nd < childDepth),
+                   done := st.matched || decide (nd < childDepth) }
 
 theorem checkEntries_cons (ctx : TCtx) (rec : Rec) (child : Node) (cn : Visit) (depth : Nat) (known : Option Nat)
     (e : Entry) (es : List Entry) (idx : Nat) (st : CState) :
